@@ -27,6 +27,9 @@ def both(line, mode, stratum):
     sc = scale_of_line(line)
     # arcs whose radii are scaled up to just reach the end points take the square root of a rounding-size difference: sqrt(eps) conditioning
     tolrel = 1e-6 if line.startswith('svg.arc') else 1e-9
+    if mode == 'tight':
+        # only + - * / and one `ceil(log2(.))` of an exact power of two: both back ends must take the same iteration path
+        tolrel, mode = 1e-14, 'num'
 
     def judge(o):
         a, b = o['I'][0], o['L'][0]
@@ -116,6 +119,15 @@ def generate(rng, tier):
                 continue
             k += 1
             yield both(line, 'flat' if line.startswith('path.flatten ') else 'num', modname)
+    # ITP with (b - a) / epsilon an exact power of two: `log2` is exact there in every correct libm, so `n_1/2 = ceil(log2(.))`, the projection radius
+    # and with them every iterate agree; a `log2` that is not exact at powers of two changes the iteration path (results differ far above rounding)
+    for _ in range(per):
+        r0 = rng.uniform(0.05, 0.95)
+        c3, c1 = rng.uniform(0.5, 20.0), rng.uniform(0.0, 0.2)
+        # f(x) = c3 (x - r0)^3 + c1 (x - r0): increasing, one zero r0 in (0, 1), flat around it for small c1
+        co = [-c3 * r0 ** 3 - c1 * r0, 3 * c3 * r0 * r0 + c1, -3 * c3 * r0, c3]
+        j = rng.randint(0, 3)
+        yield both(f'solve.itp {H(*co)} {H(0.0, 2.0 ** j, 2.0 ** -rng.randint(20, 45))} {rng.choice([0, 1, 2])} {H(rng.choice([0.2, 0.1, 0.05]))}', 'tight', 'itp-pow2')
     # SVG arcs and shapes under affine maps (SVD)
     for _ in range(per):
         g = lambda: rng.uniform(-50, 50)
